@@ -546,7 +546,8 @@ def gen_load_case(rng, sb: Sandbox) -> dict:
             spec["tensors"].append(dict(L.gen_tensor_params(rng), name=f"t_{pos}", position=pos, loc=loc,
                                         loc_style=style, entry=rng.choice(L.TENSOR_ENTRIES)))
         rel = "../B_evil/evil.bin" if target == "work/B" else "../sub_evil/e.bin"
-        for name, loc in (("w_escape_rel", rel), ("w_escape_abs", "$R/outside/secret.bin")):
+        decoyed = "data.bin" if target == "work/B" else "inner.bin"  # same-named decoys exist elsewhere
+        for name, loc in (("w_escape_rel", rel), ("w_escape_abs", "$R/outside/secret.bin"), ("w_decoyed", decoyed)):
             spec["tensors"].append({"dtype": "UINT8", "shape": [16], "offset": None, "length": None, "name": name,
                                     "position": "init", "loc": loc, "loc_style": "fixed-witness",
                                     "entry": rng.choice(["tobytes", "numpy", "tofile_bytesio"])})
@@ -599,6 +600,11 @@ def run_load_case(ctx, sb: Sandbox, spec: dict, count: bool = True) -> list:
         raise AssertionError(f"harness: loaded external tensors {sorted(tensors)} != written {sorted(expected)}")
     model_dir = f"{sb.R}/{spec['target']}"
     dst = os.stat(model_dir)
+    if spec["judged"]:
+        # the model's directory = directory of the file the OS actually opened
+        opened_dir = os.stat(os.path.dirname(os.path.realpath(os.fspath(sp_o))))
+        if (opened_dir.st_dev, opened_dir.st_ino) != (dst.st_dev, dst.st_ino):
+            raise AssertionError(f"harness: spelling {sp!r} does not denote the model written to {model_dir}")
     bad: dict[str, str] = {}  # tensor name -> "empty" | "wrong"
     for ts in spec["tensors"]:
         t = tensors[ts["name"]]
@@ -628,8 +634,9 @@ def run_load_case(ctx, sb: Sandbox, spec: dict, count: bool = True) -> list:
         rspec = dict(ts, route="load", base=sb.unsubst(b), base_class=f"load:{scls}",
                      cwd=spec["cwd"], target=spec["target"])
         loc = sb.subst(ts["loc"])
-        # truth relative to the directory the base *should* denote when load left it empty
-        truth = L.compute_truth(sb, b if b else model_dir, loc)
+        # truth relative to the directory the base *should* denote when load got it wrong
+        misbased = ts["name"] in bad
+        truth = L.compute_truth(sb, model_dir if misbased else b, loc)
         sb.reset_scratch()
         AUDIT.events = []
         try:
@@ -642,15 +649,18 @@ def run_load_case(ctx, sb: Sandbox, spec: dict, count: bool = True) -> list:
         finally:
             _release(t)
         events = AUDIT.events
-        if b == "":
-            # first sentence of the statement does not apply (empty base); keep as witness only
-            if outcome[0] == "bytes" and not truth.allowed:
-                c.count("report_only_escape_through_empty_base_dir")
+        if misbased:
+            # the violation is the base directory itself (last sentence of the statement); what the
+            # reads then deliver relative to the *model's* directory is kept as witness
+            if outcome[0] == "bytes":
                 src = sb.source_of(outcome[1], ts["offset"] or 0)
-                witnesses.append(
-                    f"tensor {ts['name']!r} (position {ts['position']}) location {ts['loc']!r} read through "
-                    f"{ts['entry']} returned {len(outcome[1])} bytes = canary of {src.relpaths if src else '?'} "
-                    f"({truth.cls})")
+                if not truth.allowed or src is not sb.inv[truth.key]:
+                    c.count(f"report_only_escape_through_{bad[ts['name']]}_base_dir")
+                    witnesses.append(
+                        f"tensor {ts['name']!r} (position {ts['position']}) location {ts['loc']!r} read through "
+                        f"{ts['entry']} returned {len(outcome[1])} bytes = canary of {src.relpaths if src else '?'}, "
+                        f"not a file of the model directory ({truth.cls}"
+                        f"{', the model-directory file of that name is ' + str(truth.relpaths) if truth.allowed else ''})")
             continue
         viols = judge_read(c, sb, rspec, truth, outcome, events)
         c.count("reads_judged")
